@@ -11,7 +11,7 @@ import (
 
 func writeEvidence(spec *Spec, tier string, seed int64, path string, stats []*runStats, wall, loadS float64, nviol int, known []string, inconclusive []string, workers int) {
 	var states, transitions, validated, asserts, assertQ, instrs, hashes, infeasible int64
-	var qsat, qunsat, qunk, qfb, qcross, sns int64
+	var qsat, qunsat, qunk, qfb, qcross, sns, tokenDep int64
 	var samples []interface{}
 	funcs := map[string]int64{}
 	runs := []map[string]interface{}{}
@@ -26,6 +26,7 @@ func writeEvidence(spec *Spec, tier string, seed int64, path string, stats []*ru
 		instrs += s.Instrs
 		hashes += s.Hashes
 		infeasible += int64(s.Infeasible)
+		tokenDep += int64(s.TokenDep)
 		distinct += len(s.DistinctSig)
 		qsat += s.QSat
 		qunsat += s.QUnsat
@@ -43,6 +44,7 @@ func writeEvidence(spec *Spec, tier string, seed int64, path string, stats []*ru
 			"name": s.Name, "paths_executed": s.Paths, "paths_completed": s.Ok, "assumption_infeasible": s.Infeasible,
 			"outcomes": s.Outcomes, "covers": s.Covers, "params": s.Params, "wall_s": round1(s.WallS),
 			"validated_natively": s.Validated, "exhaustive_within_bounds": s.Exhaustive,
+			"paths_with_token_dependent_model": s.TokenDep,
 		})
 	}
 	// functions of the code under test that were symbolically executed
@@ -74,6 +76,7 @@ func writeEvidence(spec *Spec, tier string, seed int64, path string, stats []*ru
 		"assertion_queries_to_solver":      assertQ,
 		"ssa_instructions_executed":        instrs,
 		"symbolic_hash_applications":       hashes,
+		"paths_with_token_dependent_model": tokenDep, // completed paths whose model sets an input byte equal to an abstract hash byte; explored and asserted, excluded from native replay sampling
 		"functions_encoded":                encoded,
 		"bounds":                           spec.Bounds,
 		"models_used":                      spec.Models,
